@@ -197,6 +197,20 @@ CLAIMED = {
         technique="static analysis: writer/reader key-table agreement, must-pass-through, switch exhaustiveness and sibling agreement, "
         "expression-shape algebra",
     ),
+    "C12": dict(
+        text="Static analysis of the current source; structural clauses of C12 only. Decides: in every get_bin(LOR) implementation "
+        "(arc-corrected and non-arc-corrected cylindrical, generic, blocks-on-cylindrical) a bin coordinate is never modified after the "
+        "range test that decides found/missing on a path to the successful return, and a coordinate computed there is tested against both "
+        "its bounds before the bin can be returned as found; where a computed view beyond the last view is folded back by num_views the "
+        "tangential position is negated and the ring difference is taken with exchanged end points under the same flag; by closed-form "
+        "algebra arc-corrected get_s = tangential position * bin_size (uniform sampling, odd), non-arc-corrected get_s is odd, get_phi is "
+        "affine in the view with slope azimuthal_angle_sampling, get_m is affine in the axial position with the segment's axial sampling, "
+        "get_tantheta is odd in the ring difference and even in s. NOT decided: that get_bin(get_LOR(bin)) returns the same or a "
+        "neighbouring bin, agreement of the coordinates with the detectors' physical positions, TOF bin boundaries, arc correction "
+        "preserving integrals (floating-point geometry over runtime scanner parameters).",
+        technique="static analysis: typestate (range test after last modification) over clang CFG with short-circuit-aware ordering, "
+        "branch-structure rule for the view wrap-around, closed-form parity/linearity algebra (sympy) on accessor bodies",
+    ),
     "C07": dict(
         text="Static analysis of OSMAPOSLReconstruction::update_estimate; thin structural part of C07 only. Decides: one subset number is "
         "drawn per sub-iteration and used both for the gradient-plus-sensitivity and for the subset sensitivity it is divided by; the "
@@ -220,7 +234,6 @@ CLAIMED = {
 }
 
 NOT_APPLICABLE = {
-    "C12": "floating-point geometry (trigonometry, rounding to nearest bin, tolerances) over runtime scanner parameters; no structural necessary condition of substance that a static rule could decide",
     "C15": "conservation of sums / centre of mass over runtime data and floating-point matching of sinograms; nothing decidable from the shape of the code",
     "C19": "numerical identities of DFTs and filters over runtime arrays; no structural clause beyond trivia",
 }
